@@ -12,9 +12,10 @@
    * A Rust panic (index out of bounds, unwrap on None, assert, division by zero) is the outcome `None`.
      Functions that cannot panic return plain values.  Loops that are not structurally recursive run on
      fuel = length of the work list; running out of fuel is also `None` (proved impossible in
-     proofs/PolyCoreProofs.v: `batch_multiply_total`, `par_batch_multiply_total`).
+     proofs/PolyCoreProofs.v: `batch_multiply_with_spec`, `par_batch_multiply_with_spec`).
    * `ntt` / `intt` (math/ntt.rs, property C06) are PARAMETERS of the NTT-based routines:
-     `ntt1 : list F1 -> option (list F1)` etc.  Instantiate them with `Ntt.ntt bfe_ops ops act`.
+     `ntt1 : list F1 -> option (list F1)` etc.  Instantiate them with `Ntt.ntt_b`/`Ntt.intt_b` (base field) or
+     `Ntt.ntt_x`/`Ntt.intt_x` (extension field), i.e. `Ntt.ntt bfe_ops ops act`.
    * The thread count read by `par_batch_multiply` (`available_parallelism()`) is the explicit parameter `nt`.
    * Sizes, degrees, indices and exponents are `Z`; `nat` appears only as list length / fuel.
    * Naming: every model function is `poly_<rust name>`; `_gen` = the mixed-field (three records) form;
